@@ -16,14 +16,14 @@ theorem dft2_follows_source_wiring (f : Arr ℂ) (αr αc : ℝ) (M N : ℤ) (sh
     (dft2 f αr αc M N shr shc offr offc unitary).get u v =
       (if unitary then
         Gen.fwDft2Prod sumRange
-          (fun row col => srcExp Gen.fwExpCoeff1 (Gen.fwDft2E1Arg (fun i : ℤ => (i : ℝ)) f.s0 f.s1 αr αc M N shr shc offr offc row col))
-          (fun row col => srcExp Gen.fwExpCoeff2 (Gen.fwDft2E2Arg (fun i : ℤ => (i : ℝ)) f.s0 f.s1 αr αc M N shr shc offr offc row col))
+          (fun row col => srcExp (Gen.fwExpPhase1 (fun i : ℤ => (i : ℝ)) Real.pi (Gen.fwDft2E1Arg (fun i : ℤ => (i : ℝ)) f.s0 f.s1 αr αc M N shr shc offr offc row col)))
+          (fun row col => srcExp (Gen.fwExpPhase2 (fun i : ℤ => (i : ℝ)) Real.pi (Gen.fwDft2E2Arg (fun i : ℤ => (i : ℝ)) f.s0 f.s1 αr αc M N shr shc offr offc row col)))
           f.get f.s0 f.s1 M N u v
         * ((Gen.fwDft2Scale (fun i : ℤ => (i : ℝ)) Real.sqrt (fun x => |x|) f.s0 f.s1 αr αc M N shr shc offr offc : ℝ) : ℂ)
       else
         Gen.fwDft2Prod sumRange
-          (fun row col => srcExp Gen.fwExpCoeff1 (Gen.fwDft2E1Arg (fun i : ℤ => (i : ℝ)) f.s0 f.s1 αr αc M N shr shc offr offc row col))
-          (fun row col => srcExp Gen.fwExpCoeff2 (Gen.fwDft2E2Arg (fun i : ℤ => (i : ℝ)) f.s0 f.s1 αr αc M N shr shc offr offc row col))
+          (fun row col => srcExp (Gen.fwExpPhase1 (fun i : ℤ => (i : ℝ)) Real.pi (Gen.fwDft2E1Arg (fun i : ℤ => (i : ℝ)) f.s0 f.s1 αr αc M N shr shc offr offc row col)))
+          (fun row col => srcExp (Gen.fwExpPhase2 (fun i : ℤ => (i : ℝ)) Real.pi (Gen.fwDft2E2Arg (fun i : ℤ => (i : ℝ)) f.s0 f.s1 αr αc M N shr shc offr offc row col)))
           f.get f.s0 f.s1 M N u v) ∧
     ((dft2 f αr αc M N shr shc offr offc unitary).s0, (dft2 f αr αc M N shr shc offr offc unitary).s1)
       = Gen.fwDft2OutShape f.s0 f.s1 M N ∧
@@ -143,6 +143,21 @@ theorem dft2_phase_ramp_eq_shift (f : Arr ℂ) (αr αc : ℝ) (M N : ℤ) (shr 
   congr 2
   push_cast
   ring
+
+/-- **on a full period an integer shift is a circular roll of the output.** With `α = (1/m, 1/n)`, output shape = input shape and
+integer shifts `(sr, sc)`: sample `[u, v]` of the shifted transform is sample `[(u − sr) mod m, (v − sc) mod n]` of the unshifted one
+(any offsets, both flags). This is why Parseval holds for every shift while the round trip `idft2 ∘ dft2` with a non-zero shift
+returns a rolled copy, not `f`. -/
+theorem dft2_integer_shift_full_period (f : Arr ℂ) (m n : ℕ) (hm : f.s0 = m) (hn : f.s1 = n) (hm0 : 0 < m) (hn0 : 0 < n)
+    (sr sc offr offc : ℤ) (unitary : Bool) (u v : ℤ) :
+    (dft2 f (1 / (m : ℝ)) (1 / (n : ℝ)) m n ((sr : ℤ) : ℝ) ((sc : ℤ) : ℝ) offr offc unitary).get u v
+      = (dft2 f (1 / (m : ℝ)) (1 / (n : ℝ)) m n 0 0 offr offc unitary).get ((u - sr) % m) ((v - sc) % n) := by
+  rw [dft2_get_eq, dft2_get_eq]
+  congr 1
+  unfold dft2Sum
+  simp only [hm, hn, ker_int_shift_roll m hm0, ker_int_shift_roll n hn0]
+
+example : ∃ sr sc : ℤ, sr < 0 ∧ 0 < sc := ⟨-2, 3, by norm_num, by norm_num⟩
 
 open ComplexConjugate in
 /-- **inversion on a full period.** With `α = (1/m, 1/n)`, output shape = input shape, zero shift and offset and the
